@@ -136,3 +136,90 @@ func c19pressure(c *core.Ctx) {
 	c.Rep.Scenarios++
 	c.Rep.Sample(map[string]interface{}{"search": "back-pressure", "keep_alive_s": []int{1, 10}, "fillers": []int{4, 5, 6}, "ping_interval_tenths_of_K": []int{5, 9}, "rounds": []int{2, 4}})
 }
+
+// KnownSilentFull is the fingerprint of the listed finding about a silent client
+// whose receiver goroutine waits for room in the incoming ring.
+const KnownSilentFull = "C19 keep-alive not enforced while the receiver waits for room in the incoming ring"
+
+// c19silentFull: a client that has stopped reading *and* filled its own incoming
+// ring at the broker (it subscribed to a topic it publishes on; its processor
+// waits for room in its outgoing ring, so nothing leaves the incoming ring),
+// then goes silent.  After 1.6 K it has to be disconnected and its will
+// published.  The library does that as long as its receiver goroutine is reading
+// the socket (fix 31); with the incoming ring full the receiver waits in
+// waitForWriteSpace, where no deadline runs: the listed finding KnownSilentFull,
+// recognised by exactly that state (connection open, receiver parked on the
+// ring's condition variable).
+func c19silentFull(c *core.Ctx) {
+	for _, fillers := range []int{3, 6} {
+		name := fmt.Sprintf("silent client that stopped reading, %d publishes of 8000 bytes to a topic it is subscribed to itself, then 1.6 K of silence", fillers)
+		if c.Replay != nil && c.Replay.Scenario != name {
+			continue
+		}
+		if c.Replay == nil && c.NShards > 1 && c.Shard != 0 {
+			return
+		}
+		fillers := fillers
+		parkedOnRing := false
+		body := func() {
+			parkedOnRing = false
+			t := newTD()
+			w := t.connect("W", 0, 65535, false)
+			t.subscribe("W", "will/#", 0)
+			x := t.connect("C", 512, 10, true)
+			t.subscribe("C", "own", 0)
+			if vsched.Failed() {
+				return
+			}
+			for i := 0; i < fillers; i++ {
+				x.rc.Send(bigPub("own", 8000, byte(i)))
+				t.settleExcept()
+			}
+			w.rc.Take()
+			vsched.Advance(16 * time.Second)
+			t.settleExcept()
+			nw := len(publishesOn(w.rc.Take(), "will/c"))
+			var lib []vsched.Parked
+			for _, p := range threadsOf(LibThreadsAlive(), x.prefix) {
+				lib = append(lib, p)
+				if strings.Contains(p.Name, "receiver") && (p.Kind == vsched.KCondWait || p.Kind == vsched.KCondWake) {
+					parkedOnRing = true
+				}
+			}
+			if nw != 1 || len(lib) > 0 {
+				vsched.Failf("the client negotiated a keep-alive of 10 s and has been silent for 16 s: its will was published %d times, %d goroutines of its connection are still there: %s", nw, len(lib), core.ParkedString(lib))
+			}
+		}
+		res := explore.RunDefault(body)
+		c.Rep.Executions++
+		c.Rep.Evaluations++
+		c.Rep.States++
+		c.Rep.Transitions += int64(len(res.Points))
+		if c.Replay != nil {
+			fmt.Println("replay:", name, "\n  failures:", res.Failures, firstLine(res.Crash))
+			c.Rep.Scenarios++
+			return
+		}
+		v := ""
+		if res.Status == vsched.StCrash {
+			v = "a library goroutine panicked: " + firstLine(res.Crash)
+		} else if len(res.Failures) > 0 {
+			v = res.Failures[0]
+		}
+		if v == "" {
+			continue
+		}
+		key := "C19 silent-full :: " + violClass(v)
+		if parkedOnRing && res.Status != vsched.StCrash {
+			if c.Known[KnownSilentFull] {
+				c.Rep.KnownHits[KnownSilentFull]++
+				continue
+			}
+			key = KnownSilentFull
+		}
+		if c.Violate(key, core.Replay{Scenario: name, Message: v, Log: res.Log, Crash: res.Crash}) {
+			return
+		}
+	}
+	c.Rep.Scenarios++
+}
